@@ -140,7 +140,7 @@ def writes_for(msgs, cuts):
     return evs
 
 
-CLIENT_OPS = ("g", "t", "T", "i", "r")
+CLIENT_OPS = ("g", "t", "T", "i", "r", "z", "Z", "R", "j", "q")
 
 
 def client(r, choices):
@@ -153,6 +153,10 @@ def client(r, choices):
         return ["t", "g"]
     if c == "x":
         return [r.choice(["T", "i"])]
+    if c == "z":           # get_next_message whose deadline has passed already: Duration(0), Duration(1 ns)
+        return [r.choice(["z", "z", "Z"])]
+    if c == "y":           # read_once with a deadline of 5 s / none (kept only where a read can be made at once) / 1 ns
+        return [r.choice(["R", "j", "q"])]
     return [c]
 
 
@@ -164,17 +168,17 @@ def interleave(r, writes, nmsgs, style):
         evs.append(w)
         since += 1
         if style == "after_each":
-            evs += client(r, ["g", "g", "r", "t", "x"])
+            evs += client(r, ["g", "g", "r", "t", "x", "z", "y"])
             since = 0
         elif style == "dense":
             if r.random() < 0.6:
                 for _ in range(r.choice([1, 1, 2, 3])):
-                    evs += client(r, ["g", "g", "r", "r", "t", "x"])
+                    evs += client(r, ["g", "g", "r", "r", "t", "x", "z", "z", "y"])
                 since = 0
         elif style == "sparse":
             if r.random() < 0.08 or since >= 120:
                 for _ in range(r.choice([1, 2, 4])):
-                    evs += client(r, ["g", "r", "r", "t", "x"])
+                    evs += client(r, ["g", "r", "r", "t", "x", "z", "y"])
                 since = 0
         elif style == "big":
             # large writes: drain often enough that the peer's send buffer never fills
@@ -183,7 +187,7 @@ def interleave(r, writes, nmsgs, style):
                 since = 0
         elif style == "reads":
             for _ in range(r.choice([0, 1, 2, 3])):
-                evs.append("r")
+                evs += client(r, ["r", "r", "r", "y", "z"])
             if r.random() < 0.2:
                 evs.append("g")
             since = 0
@@ -194,6 +198,31 @@ def interleave(r, writes, nmsgs, style):
     if r.random() < 0.3:
         evs += client(r, ["x", "t"])
     evs += ["g"] * (nmsgs + 1)
+    return evs
+
+
+def backlog(r, msgs, plain=False):
+    """all frames written before the client reads anything: a few cuts near the headers, otherwise writes of
+    64 KiB .. 1 MiB (a write that carries descriptors stays below 16000 bytes so that it is one kernel segment),
+    then one call per message.  plain: only calls whose result does not need the model's plan."""
+    total = sum(m.n for m in msgs)
+    cuts, p = set(), 0
+    for m in msgs:
+        if m.nfds:
+            cuts.add(p + min(m.n - 1, r.randrange(16, 16000)))
+        if r.random() < 0.5:
+            cuts.add(p + r.choice([1, 7, 12, 16, 17]))
+        p += m.n
+    p = 0
+    while p < total:
+        p += r.choice([65536, 100000, 1 << 18, 1 << 20, r.randrange(65536, 1 << 20)])
+        cuts.add(p)
+    evs = writes_for(msgs, cuts)
+    if not plain and r.random() < 0.5:
+        evs += client(r, ["r", "y", "z"])
+    for _ in msgs:
+        evs += ["g"] if plain else client(r, ["g", "x", "x", "g"])
+    evs += ["g"] * (len(msgs) + 1)
     return evs
 
 
@@ -306,8 +335,11 @@ def expected_from_model(model_tokens, msgs):
     by_serial = {m.serial: m for m in msgs}
     out, bang = [], {}
     for k, t in enumerate(model_tokens):
-        if t.startswith("!"):          # a T / i call that would not find a whole message: make it a non-blocking one
-            bang[k] = "g"
+        if t.startswith("!"):          # a T / i (R / j) call that would have to wait: make it a non-blocking one
+            bang[k] = "!"
+            t = t[1:]
+        elif t.startswith("%"):        # Duration(0)/(1 ns) met a partly filled buffer (counted, nothing to change)
+            bang[k] = "%"
             t = t[1:]
         elif t.startswith("^"):        # a 1 ms call that finds a whole message on the socket: give it a real deadline
             bang[k] = "T"
@@ -326,15 +358,21 @@ def expected_from_model(model_tokens, msgs):
     return out, bang, None
 
 
-def run_batch(ctx, exe, drv, scheds):
+NOMODEL = ["<no model run: only the property predicate is evaluated>"]
+
+
+def run_batch(ctx, exe, drv, scheds, model=True):
     lines = [s.line() for s in scheds]
-    # the extracted list functions are not tail recursive: frames of several hundred KiB need a deep stack
-    ok, mout, err = vlib.par_run_lines("/bin/sh", ["-c", "ulimit -s unlimited 2>/dev/null || ulimit -s 4000000; exec " + drv], lines)
-    if not ok:
-        ctx.tie_broken("extracted model driver c09 crashed", err)
-        return
-    final = []
-    exp = []
+    if model:
+        # the extracted list functions are not tail recursive: frames of several hundred KiB need a deep stack
+        ok, mout, err = vlib.par_run_lines("/bin/sh", ["-c", "ulimit -s unlimited 2>/dev/null || ulimit -s 4000000; exec " + drv], lines)
+        if not ok:
+            ctx.tie_broken("extracted model driver c09 crashed", err)
+            return
+    else:
+        mout = []
+    final = [] if model else list(scheds)
+    exp = [] if model else [NOMODEL] * len(scheds)
     for s, mo in zip(scheds, mout):
         toks = [] if mo == "-" else mo.split(",")
         e, bang, prob = expected_from_model(toks, s.msgs)
@@ -350,7 +388,12 @@ def run_batch(ctx, exe, drv, scheds):
                 if ev in CLIENT_OPS:
                     k += 1
                     if k in bang:
-                        evs[i] = bang[k]
+                        if bang[k] == "%":
+                            ctx.count("expired deadline (Duration 0 / 1 ns) on a partly filled buffer")
+                        elif bang[k] == "!":
+                            evs[i] = "r" if ev in ("R", "j") else "g"
+                        else:
+                            evs[i] = bang[k]
             s = Sched(s.msgs, evs, s.kind)
         exp.append(e)
         final.append(s)
@@ -367,8 +410,13 @@ def run_batch(ctx, exe, drv, scheds):
     for s, e, io in zip(final, exp, iout):
         if e is None:
             continue
+        if io.startswith("SETUPFAIL"):
+            ctx.extra["not_evaluated"] = ctx.extra.get("not_evaluated", 0) + 1
+            ctx.count("set-up failed (connect_to_bus / auth handshake): not a statement about the receive path")
+            continue
         if io == "SKIPPED":
             # the harness process had three hanging cases before this one and gave up on the rest of its share
+            ctx.extra["not_evaluated"] = ctx.extra.get("not_evaluated", 0) + 1
             ctx.count("schedules skipped after three hanging cases in one harness process")
             continue
         if io == "HANG":
@@ -377,6 +425,7 @@ def run_batch(ctx, exe, drv, scheds):
             # (3 s) means some receive call never returned.  It counts after a second run, alone, with 10 s.
             ctx.count("cases that exceeded their 3 s deadline")
             if ctx.extra.get("hang_reruns", 0) >= 2:
+                ctx.extra["not_evaluated"] = ctx.extra.get("not_evaluated", 0) + 1
                 continue
             ctx.extra["hang_reruns"] = ctx.extra.get("hang_reruns", 0) + 1
             rc, again, _ = vlib.run_lines(exe, [], [s.line()], timeout=120, env={"C09_CASE_MS": "10000"})
@@ -416,12 +465,25 @@ def run_batch(ctx, exe, drv, scheds):
         ctx.count("ops:g", sum(1 for ev in s.events if ev == "g"))
         ctx.count("results:T", sum(1 for t in toks if t == "T"))
         verdict = property_verdict(toks, s.msgs, s.events)
-        data = {"line": s.line(), "canons": [m.canon for m in s.msgs], "specs": [m.spec for m in s.msgs], "lens": [m.n for m in s.msgs],
-                "impl": [t[:200] for t in toks], "model": [t[:200] for t in e]}
+        total = sum(m.n for m in s.msgs)
+        if total <= 300000:
+            data = {"line": s.line(), "canons": [m.canon for m in s.msgs]}
+        else:
+            # frames of MiB size are not written into the replay file: they are rebuilt from the specs
+            data = {"events": ",".join(s.events)}
+        data.update({"specs": [m.spec for m in s.msgs], "lens": [m.n for m in s.msgs],
+                     "impl": [t[:200] for t in toks], "model": [t[:200] for t in e]})
+        for ev in ("z", "Z", "R", "j", "q"):
+            ctx.count("ops:" + {"z": "z (get_next_message, Duration 0)", "Z": "Z (get_next_message, Duration 1 ns)",
+                                "R": "R (read_once, Duration 5 s, a read can be made at once)",
+                                "j": "j (read_once, Infinite, a read can be made at once)", "q": "q (read_once, Duration 1 ns)"}[ev],
+                      sum(1 for x in s.events if x == ev))
+        if total >= 1 << 20:
+            ctx.count("frames of 1 MiB or more" + ("" if e is not NOMODEL else " (property predicate only, no model run)"))
         if verdict is not None:
             ctx.disagreements_checked += 1
             ctx.violation(verdict, data)
-        elif [("E" if t.startswith("E") else t) for t in toks] != [("E" if t.startswith("E") else t) for t in e]:
+        elif e is not NOMODEL and [("E" if t.startswith("E") else t) for t in toks] != [("E" if t.startswith("E") else t) for t in e]:
             ctx.disagreements_checked += 1
             diff = [k for k in range(max(len(toks), len(e))) if k >= len(toks) or k >= len(e) or toks[k] != e[k]]
             ctx.tie_broken("correspondence: implementation and model differ on a schedule on which the property itself is not violated "
@@ -485,7 +547,11 @@ def run(ctx):
                 "bodies in writes of up to 16000 bytes) x client operations get_next_message(Nonblock), read_once(Nonblock), "
                 "get_next_message(Duration 1 ms) where nothing or only part of a message is queued (always followed by a non-blocking "
                 "call so that later results cannot depend on when the clock ran out), get_next_message(Duration 5 s) and "
-                "get_next_message(Infinite) where the model says a whole message is already queued, interleaved with the writes; "
+                "get_next_message(Infinite) where the model says a whole message is already queued, get_next_message(Duration 0 / 1 ns) "
+                "(the deadline has passed at the first look at the clock: the model's time-up branch, mostly on a partly filled buffer), "
+                "read_once with Duration(5 s) / Infinite where a read can be made at once and with Duration(1 ns), interleaved with the "
+                "writes; plus backlogs (several hundred KiB .. 2 MiB written before the client reads, so that single reads exceed 64 KiB) "
+                "and, in the thorough tier, frames up to 32 MiB (above 4 MiB against the property predicate only); "
                 "every schedule ends with all bytes written and one more get_next than messages. non-trivial = some write boundary "
                 "lies strictly inside a frame or some message carries descriptors; distinct = distinct (frames, event list)") % (
                     "all" if thorough else "a third of the")
@@ -495,7 +561,9 @@ def run(ctx):
     ctx.assumptions = ["the sender attaches the descriptors of a message to the sendmsg that carries the first byte of its frame (rustbus SendConn and libdbus do)",
                        "AF_UNIX stream socket as in DESIGN.md section 4: recvmsg returns 1..min(request, queued) bytes, rights are handed out with the first byte of their segment; compared with the running kernel by the kprobe cases of this run",
                        "the peer does not close the connection; messages carry at most 253 descriptors (kernel limit per sendmsg = size of the control buffer)",
-                       "usize is 64 bit"]
+                       "usize is 64 bit",
+                       "in refill_buffer `stream.set_nonblocking(false)?` and `stream.set_read_timeout(old_timeout)?` run after recvmsg and before `msg?`: if one of them failed after a successful recvmsg, the bytes already written into the buffer and the received control messages would be dropped (filled is not advanced, descriptors are not collected). These fcntl/setsockopt calls do not fail on a healthy socket; neither the model nor the harness covers their failure (same shape as the C10 assumption about the send side)",
+                       "frames above 2 MiB (quick) / 4 MiB (thorough) are checked against the property predicate only, the extracted model being too slow for them (counted in the input distribution)"]
     ctx.try_proof()
     exe = vlib.harness_build(["c09"])["c09"]
     vlib.coq_make(["Conn/Recv.vo"])
@@ -540,7 +608,30 @@ def run(ctx):
             p += r.choice([r.randrange(1, 40), r.randrange(1000, 16000), r.randrange(8000, 16000), 16000])
             cuts.add(p)
         scheds.append(Sched(msgs, interleave(r, writes_for(msgs, cuts), len(msgs), "big"), "big body"))
+    # a backlog: the peer writes everything while the client is not reading (its send buffer is enlarged), then a
+    # single call has to read far more than 64 KiB at once
+    for _ in range(30 if thorough else 4):
+        b = r.choice(big)
+        msgs = [x for x in [r.choice(pool) if r.random() < 0.4 else None, b, r.choice(pool) if r.random() < 0.6 else None] if x is not None and x.nfds < 9]
+        scheds.append(Sched(msgs, backlog(r, msgs), "big backlog"))
     run_batch(ctx, exe, drv, scheds)
+
+    # frames of MiB size: with the model up to 2 MiB (quick) / 4 MiB (thorough); beyond that the extracted model
+    # (bytes as unary-free but boxed numbers in lists) is too slow, and only the property predicate is evaluated
+    with_model, without = [], []
+    sizes = [2 << 20] if not thorough else [1 << 20, 2 << 20, 4 << 20, 8 << 20, 16 << 20, 32 << 20]
+    for k, n in enumerate(sizes):
+        spec = "%s,%s,%d,%d,%d,huge" % (r.choice("cs"), r.choice("lB"), n + r.randrange(0, 9), r.choice([0, 1]), 6000 + k)
+        m = build_pool(exe, [spec])[0]
+        small = r.choice([x for x in pool if x.nfds < 9])
+        msgs = [m, small]
+        if n <= (4 << 20 if thorough else 2 << 20):
+            with_model.append(Sched(msgs, backlog(r, msgs), "huge frame"))
+        else:
+            without.append(Sched(msgs, backlog(r, msgs, plain=True), "huge frame"))
+    run_batch(ctx, exe, drv, with_model)
+    if without:
+        run_batch(ctx, exe, drv, without, model=False)
 
     # kernel assumptions
     kc = kprobe_cases(ctx.sub_rng("kprobe"), 3000 if thorough else 300)
@@ -556,11 +647,19 @@ def run(ctx):
             ctx.tie_broken("the running kernel does not behave like the socket model of DESIGN.md section 4",
                            "\n".join("%s\n kernel: %s\n model : %s" % b for b in bad[:3]))
     ctx.exhaustive = False
+    if ctx.extra.get("not_evaluated"):
+        ctx.tie_broken("%d schedules were not evaluated (set-up failure, or skipped / not re-run after hanging cases): the run "
+                       "does not show the property on them" % ctx.extra["not_evaluated"], "see the input distribution")
 
 
 def replay(ctx, body):
     data = body["data"]
     exe = vlib.harness_build(["c09"])["c09"]
+    if "line" not in data:
+        # MiB-sized frames: rebuilt from the specs
+        ms = build_pool(exe, data["specs"])
+        data["line"] = Sched(ms, data["events"].split(","), "replay").line()
+        data["canons"] = [m.canon for m in ms]
     line = data["line"]
     rc, out, err = vlib.run_lines(exe, [], [line], timeout=120, env={"C09_CASE_MS": "20000"})
     parts = line.split(" ")
